@@ -185,6 +185,37 @@ def _sym_call(prog, kind, alias, timeout_ms):
     return L, X, av, bv, ores, args, objs
 
 
+def witness(L, env, what):
+    """vacuity guard: extends the concrete values `env` of the free variables of L to all its variables (wrap quotients by their defining
+    division, opaque products by multiplication) and has z3 confirm that every constraint recorded in L - domain assumptions, side
+    conditions, lemmas added after being proved - holds under it, i.e. that the constraint set the VCs were proved from is satisfiable"""
+    quot = {list(q.t)[0]: ky for ky, (r, q) in L.wraps.items() if q.t}
+    for i, name in enumerate(L.names):
+        if name in env:
+            continue
+        if i in quot:
+            (c, terms), bits = quot[i]
+            env[name] = (c + sum(k * env[L.names[v]] for v, k in terms)) >> bits
+        elif isinstance(L.kind[i], tuple):
+            env[name] = L.evaluate(L.kind[i][1], env) * L.evaluate(L.kind[i][2], env)
+        else:
+            raise Inconclusive("vacuity guard: variable %s of the %s context has no definition" % (name, what))
+    s = z3.Solver()
+    s.set("timeout", 20000)
+    s.add(*L.solver.assertions())
+    s.add(*[L.zv[i] == env[n] for i, n in enumerate(L.names)])
+    if s.check() != z3.sat:
+        raise Inconclusive("vacuity guard: the constraints of the %s context do not hold on a concrete execution (%s)" % (what, s.check()))
+    return env
+
+
+def _inputs_env(av, bv, a, b):
+    env = {"a%d" % i: w for i, w in enumerate(words_of(a, len(av)))}
+    if bv is not av:
+        env.update({"b%d" % i: w for i, w in enumerate(words_of(b, len(bv)))})
+    return env
+
+
 # ---------------------------------------------------------------------------------------------------------------
 def a64_simple(prog, kind, alias, timeout_ms=60000):
     L, X, av, bv, ores, args, objs = _sym_call(prog, kind, alias, timeout_ms)
@@ -201,7 +232,8 @@ def a64_simple(prog, kind, alias, timeout_ms=60000):
             env = L.model_for(z3.Not(vc)) or {}
             return [(model_inputs(L, env, "a", 6), model_inputs(L, env, "a" if bv is av else "b", 6))]
         settle(L.prove(vc, kind), prog, kind, alias, key, "%s%s differs from the specification (alias pattern %d)" % (PFX, kind, alias), model)
-    return {"queries": L.queries + X.queries, "solver_s": L.solver_time, "paths": npaths, "functions": [PFX + kind],
+    witness(L, _inputs_env(av, bv, R384 - 1, R384 - 2), "only")
+    return {"queries": L.queries + X.queries + 1, "solver_s": L.solver_time, "paths": npaths, "functions": [PFX + kind],
             "sample": "%s%s alias=%d: %d path(s), %d instructions, linear-integer VC (result and returned bit) for all 384-bit operands" % (
                 PFX, kind, alias, npaths, X.steps)}
 
@@ -232,7 +264,8 @@ def a64_multiply(prog, kind, alias, timeout_ms=60000):
     precheck(X, prog, kind, alias, key, detail)
     ident = L.eq(lin_sum(L, read_words(ores, 12)), _product_form(L, av, bv))
     settle(L.prove(ident, "product identity"), prog, kind, alias, key, detail + _lost(X), lambda: _product_model(L, ident, bv is av))
-    return {"queries": L.queries + X.queries, "solver_s": L.solver_time, "paths": 1, "functions": [PFX + kind],
+    witness(L, _inputs_env(av, bv, R384 - 1, R384 - 2), "only")
+    return {"queries": L.queries + X.queries + 1, "solver_s": L.solver_time, "paths": 1, "functions": [PFX + kind],
             "sample": "%s%s%s: %d instructions, %d dropped carries proved zero, identity over %d opaque word products" % (
                 PFX, kind, " (a and b the same object)" if alias == 3 else "", X.steps, X.proved_carries, len(L.products))}
 
@@ -336,6 +369,12 @@ def a64_montgomery(prog, kind, alias=0, timeout_ms=60000):
             tval = Ls.evaluate(lin_sum(Ls, sigma), Ls.model_for(z3.Not(vc)) or {n: 0 for n in Ls.names}) if ok is False else 0
             settle(ok, prog, kind, alias, key + ":final-subtract", "%s: final conditional subtraction is wrong for the unreduced value T=%#x" % (sym, tval),
                    lambda: [] if fused else [(tval * R384 if tval < Q else tval * R384 - (R384 - 1) * Q, 0)])
+    # vacuity guard: every context's constraint set (with the assumptions and proved lemmas added to it) holds on a concrete execution
+    env = witness(L, _inputs_env(av, bv, a0, b0) if fused else _inputs_env(av, av, (Q - 1) * R384 + 12345, 0), "first")
+    for i, c in enumerate(X.cuts):
+        nxt = X.cuts[i + 1]["L"] if i + 1 < len(X.cuts) else Ls
+        env = witness(nxt, {n: c["L"].evaluate(v, env) for n, (t, v) in c["defs"].items()}, "post-cut %d" % (i + 1))
+    queries += 1 + len(X.cuts)
     ctxs = [L] + [c["L"] for c in X.cuts[1:]] + [Ls]
     return {"queries": queries + X.queries + sum(c.queries for c in ctxs), "solver_s": sum(c.solver_time for c in ctxs), "paths": len(paths), "functions": [sym],
             "sample": "%s alias=%d: %d instructions, %d carries proved zero, cuts at %s, %d suffix paths" % (
